@@ -46,6 +46,10 @@ def decode(data):
         nf = fdp.ConsumeIntInRange(1, 4)
         c = {"kind": "trr", "natoms": n, "endian": ">" if fdp.ConsumeBool() else "<", "double": fdp.ConsumeBool(), "with_v": fdp.ConsumeBool(),
              "with_f": fdp.ConsumeBool(), "with_box": fdp.ConsumeBool(), "exit_with_last": fdp.ConsumeBool(), "frames": []}
+        if fdp.ConsumeBool():
+            c["v_on"] = [fdp.ConsumeBool() for _ in range(nf)]
+        if fdp.ConsumeBool():
+            c["f_on"] = [fdp.ConsumeBool() for _ in range(nf)]
         for k in range(nf):
             c["frames"].append({"x": [num(fdp) for _ in range(3)] + [0.001 * (i + k) for i in range(3 * n - 3)],
                                 "v": [num(fdp) for _ in range(3)] + [-0.002 * (i + k) for i in range(3 * n - 3)],
